@@ -19,6 +19,17 @@ def _one_shard(args):
     except Exception:
         stats = {}
     res = {'shard': shard, 'seed': seed, 'stats': stats, 'mismatch': {}}
+    # distinct cases of this shard: case lines of the generated file with the case id stripped
+    try:
+        hs = set()
+        for line in open(f'{COQ}/{vfile}'):
+            t = line.strip().rstrip(';')
+            m = re.match(r'^\(?\s*(mk\w+\s+)?\(?\d+%?(nat)?\)?[ ,]+(.*)$', t)
+            if m and len(m.group(3)) > 60:
+                hs.add(hash(m.group(3)))
+        res['distinct'] = len(hs)
+    except OSError:
+        res['distinct'] = 0
     rc2, cout, cerr, dt = vlib.sh(['coqc', '-Q', '.', 'Rapid', '-w', '-abstract-large-number', vfile], cwd=COQ, timeout=1500)
     for ext in ('.vo', '.glob', '.vok', '.vos'):
         try:
@@ -53,7 +64,7 @@ def correspondence(ctx, cmd, shards, extra, names=('',)):
     """run `harness <cmd>` for several seeds in parallel, evaluate each case file with vm_compute.
     Returns (total_stats, broken) where broken is a list of (what, detail)."""
     # the libraries the case files import must be current (Generated/*.v may just have been regenerated)
-    ok, log = ctx.make(['Model/Corr.vo', 'Model/CorrEngine.vo', 'Model/CorrValues.vo', 'Generated/GeomTable.vo'])
+    ok, log = ctx.make(['Model/Corr.vo', 'Model/CorrEngine.vo', 'Model/CorrValues.vo', 'Model/CorrStrings.vo', 'Generated/GeomTable.vo'])
     if not ok:
         return {}, [('the correspondence libraries (Model/Corr*.v) no longer build', log[-3000:])]
     jobs = [(ctx, cmd, [str(x) for x in extra], i, ctx.seed * 1000 + i, names) for i in range(shards)]
@@ -71,6 +82,7 @@ def correspondence(ctx, cmd, shards, extra, names=('',)):
             elif isinstance(v, list):
                 dst.setdefault(k, [])
                 dst[k] += v[:3]
+    total['distinct_cases'] = sum(r.get('distinct', 0) for r in results)
     for r in results:
         merge(total, r.get('stats', {}))
         if 'error' in r:
@@ -112,11 +124,13 @@ def run_core(ctx, spec):
     ctx.prove(spec['prop'])
     ctx.partial += spec.get('partial', [])
     evaluations = 0
+    distinct = 0
     dist = {}
     samples = []
     for cmd, qs, ts, extra, names in spec.get('corr', []):
         total, broken = correspondence(ctx, cmd, ts if thorough else qs, extra, names)
         dist[cmd] = total
+        distinct += int(total.get('distinct_cases', 0))
         st = total.get('stats', total)
         evaluations += int(total.get('cases', 0)) + sum(int(v) for k, v in st.items() if isinstance(v, (int, float)) and k.startswith(('dc_', 'acc_accepted', 'acc_rejected')))
         samples += [str(x)[:600] for x in total.get('samples', [])[:2]]
@@ -157,8 +171,7 @@ def run_core(ctx, spec):
                     replay = dict(f)
                     replay['cmd'] = f"/verif/build/harness {cmd} " + ' '.join(al) + (f" -only {f['index']}" if 'index' in f else '')
                     ctx.fail_input(f"{f.get('what')}", f.get('what', ''), replay)
-    distinct = evaluations
     return ctx.finish(level='proof', evaluations=evaluations, distinct=distinct,
-                      rule=spec.get('rule', 'cases generated from one splitmix64 state per shard (seed = VERIF_SEED*1000+shard); every case is a distinct (program, source) pair'),
+                      rule=spec.get('rule', 'evaluations = correspondence cases evaluated by vm_compute plus oracle runs on the implementation; distinct_nontrivial = number of distinct case lines (case id stripped, longer than 60 characters: a non-empty program / input) in the case files generated by this run; cases come from one splitmix64 state per shard (seed = VERIF_SEED*1000+shard)'),
                       samples=samples[:4] or ['(see input_distribution)'],
                       extra={'input_distribution': dist}, assumptions=spec.get('assumptions', []))
